@@ -8,17 +8,11 @@ PY = "/venv/bin/python"
 TB = ("Lean 4.33.0 kernel; axioms per theorem audited each run (#print axioms ⊆ propext, Classical.choice, Quot.sound); "
       "no sorry/admit/native_decide/own axioms; tools/translate.py (data copied from source); the correspondence harness.")
 
-CHECKS = {
- "C15": dict(
-   text="Lean 4 proof over a model of both Telnet transports' byte machine (stepByte/handle/recvStep/read loop): for every item "
-        "list with <= limit commands and EVERY segmentation, data = application bytes minus NUL and writes = RFC replies "
-        "(telnet_full_sync/async, chunking independence, sync = async). Model tied to the code by (a) translator: protocol "
-        "constants and reply limit regenerated from source and checked against RFC values by a theorem, (b) correspondence: the "
-        "real TelnetTransport and AsynctelnetTransport are driven in-process over scripted sockets on exhaustive small streams "
-        "x all single/double cuts + random streams and compared with the model, (c) an independent Python oracle on every real run.",
-   design="§5 C15", technique="Lean 4 theorem (induction over byte stream / chunk list) + differential correspondence with the real transports",
-   note=TB + " Modelled, not verified: socket recv/send, asyncio StreamReader; the timeout decorator is bypassed (timeout_transport=0)."),
-}
+CHECKS = {}
+for _f in sorted((V / "tools" / "manifest").glob("C*.json")):
+    _d = json.load(open(_f))
+    _d["note"] = TB + " " + _d.get("note", "")
+    CHECKS[_f.stem] = _d
 
 REASON_WIP = "check not built yet in this revision (see DESIGN.md §9 build order); no claim is made"
 ALL = [f"C{i:02d}" for i in range(1, 21)]
@@ -42,7 +36,7 @@ def main():
         })
     m = {
         "version": 1,
-        "setup_cmd": "cd lean && lake build",
+        "setup_cmd": "python3 tools/mkroots.py && cd lean && lake build",
         "hooks": {"guard": "SCRAPLI_VERIF", "enable": "no source hooks: harness objects are injected from outside (attribute assignment, sys.modules); checks set SCRAPLI_VERIF=1 for form only",
                   "baseline_off_cmd": "cd /repo && /venv/bin/python -m pytest -ra -q -p no:cacheprovider --timeout=900 --continue-on-collection-errors",
                   "source_commits": [], "add_only": True},
@@ -54,6 +48,6 @@ def main():
     }
     (V / "MANIFEST.json").write_text(json.dumps(m, indent=1) + "\n")
 
-NA = {}
+NA = json.load(open(V / "tools" / "manifest" / "not_applicable.json"))
 if __name__ == "__main__":
     main()
